@@ -168,6 +168,24 @@ func nodeInstrs(code []byte) (is []GInstr, halted bool) {
 	return is, false
 }
 
+// capacityNeverExceeded: the cache capacity can hold the longest value of every symbol of the application at once.
+func (ec *eCase) capacityNeverExceeded() bool {
+	if ec.cache == 0 {
+		return true
+	}
+	longest := map[string]int{}
+	for _, r := range ec.exts {
+		if len(r.content) > longest[r.sym] {
+			longest[r.sym] = len(r.content)
+		}
+	}
+	total := 0
+	for _, v := range longest {
+		total += v
+	}
+	return total <= ec.cache
+}
+
 // calmNode: executing the node's code from the top neither navigates nor can fail: no MOVE/CATCH/CROAK before the
 // HALT, and every symbol it loads has handlers that never fail, set no flags and respect the declared size.
 func calmNode(ec *eCase, name string) bool {
@@ -187,6 +205,9 @@ func calmNode(ec *eCase, name string) bool {
 		case "MSINK":
 			sinks++
 		case "LOAD":
+			if !ec.capacityNeverExceeded() {
+				return false // the LOAD can fail for lack of cache capacity and fail over to the catch node
+			}
 			if i.N == 0 {
 				sinks++
 			}
@@ -224,6 +245,9 @@ func terminalNode(ec *eCase, code []byte) bool {
 		case "HALT", "MOVE", "CATCH", "CROAK", "INCMP", "RELOAD", "MSINK":
 			return false
 		case "LOAD":
+			if !ec.capacityNeverExceeded() {
+				return false
+			}
 			have := false
 			for _, r := range ec.exts {
 				if r.sym == gi.A {
